@@ -124,25 +124,13 @@ HARNESSES += [
 from cat.c13 import _fptr
 HARNESSES += [_fptr('c20_fptr_total', 'C20', 1)]
 
-# ---- by-name lookups ------------------------------------------------------------------------------------------------
-_M_ERASE = '_ZNSt8_Rb_treeINSt7__cxx1112basic_stringIcSt11char_traitsIcESaIcEEESt4pairIKS5_iESt10_Select1stIS8_ESt4lessIS5_ESaIS8_EE8_M_eraseEPSt13_Rb_tree_nodeIS8_E'
-_LOOKUPS = ['type_by_name', 'type_by_scoped_name', 'type_by_true_name', 'manifest_by_name', 'element_by_name', 'element_by_scoped_name']
-HARNESSES += [
-    {'id': 'c20_lookup_' + nm, 'property': 'C20', 'src': 'c20_lookup.cxx', 'entry': 'harness_c20_lookup', 'tus': _IDX_TUS,
-     'cut': [_LOAD_LATEST], 'cbmc_flags': _FAT_NODES,
-     'desc': 'InterrogateDatabase::lookup_' + nm + ' (lookup() + freshen_*): stale cache, repeated query, query after new content',
-     'domain': 'two stored entities with one-character names over {a,b,c} (equal or not), queried name empty or one character over {a,b,c,d}, '
-               'other cache bits arbitrary; then a third entity is added and the caches are invalidated',
-     'oracle': 'stored name => an entity bearing it (the entity itself when unique); unknown => 0; same answer when asked again; after '
-               'invalidation the answer reflects the added entity; only the own cache bit is set',
-     # clear() of the name cache is the recursive _Rb_tree::_M_erase: binary recursion, bounded by the tree height (<= 3 nodes) + 1
-     'bounds': {'quick': {'defs': {'WHICH': k}, 'unwind': 8,
-                          'unwindset': {_M_ERASE: 5, _M_ERASE + '.0': 5, 'll_memcmp.0': 4, 'll_memcpy.0': 4}, 'cap': 600}}}
-    for k, nm in enumerate(_LOOKUPS)]
 
 PROPERTY_INFO = {'C20': {'level': 'model_checking',
          'explanation': 'bounded symbolic execution (CBMC) of the real query-interface code lowered from /repo',
-         'outside': 'databases larger than the bounds; lazily loaded files (load_latest is cut)',
+         'outside': 'databases larger than the bounds; lazily loaded files (load_latest is cut: no file is requested in any harness); the by-name '
+                    'lookups lookup()/freshen_* (std::map<std::string,int> caches rebuilt by clear()+insert: symbolic execution of the recursive '
+                    '_Rb_tree::_M_erase over a string-keyed tree did not finish within 5 min even for two entities); the one-line extern "C" wrappers '
+                    'of interrogate_interface.cxx themselves (each is get_ptr()->get_K(i).accessor(n), the two layers are decided separately)',
          'assumptions': []}}
 
 NOT_APPLICABLE = {}
